@@ -650,9 +650,11 @@ package machine
 //@   ensures shrink:  forall x string :: mem(*t.cacheTargetStates, x) ==> mem(old(*t.cacheTargetStates), x)
 //@   ensures manual:  !t.Mutation.IsAuto ==> t.cacheTargetStates == old(t.cacheTargetStates) && t.TargetIndexes == old(t.TargetIndexes)
 //@   ensures dropped: forall x string :: mem(old(*t.cacheTargetStates), x) && !mem(*t.cacheTargetStates, x) ==> t.cacheSchema[x].Auto
+//@   ensures same:    t.cacheTargetStates == old(t.cacheTargetStates) && t.TargetIndexes == old(t.TargetIndexes)
 //@   ensures queue:   old(QueueInv(t.Machine)) ==> QueueInv(t.Machine)
 //@   ensures faults:  ghost.faults == old(ghost.faults)
 //@   loop 1 invariant absorbed: ghost.vetoes - old(ghost.vetoes) == len(old(*t.cacheTargetStates)) - len(*t.cacheTargetStates)
+//@   loop 1 invariant same: t.cacheTargetStates == old(t.cacheTargetStates) && t.TargetIndexes == old(t.TargetIndexes)
 //@   loop 1 invariant inv: TargetOK(t) && TargetParallel(t) && ghost.faults == old(ghost.faults) && (old(QueueInv(t.Machine)) ==> QueueInv(t.Machine))
 //@   loop 1 invariant shrink: forall x string :: mem(*t.cacheTargetStates, x) ==> mem(old(*t.cacheTargetStates), x)
 //@   loop 1 invariant manual: !t.Mutation.IsAuto ==> t.cacheTargetStates == old(t.cacheTargetStates) && t.TargetIndexes == old(t.TargetIndexes)
@@ -739,6 +741,8 @@ package machine
 //@ pred TxInv(t *Transition) := t.Machine != nil && t.Mutation != nil && t.MachApi != nil
 //@      && len(t.TimeBefore) == len(t.Machine.stateNames) && Known(t.Machine, *t.Mutation.cacheCalled)
 //@      && (t.Mutation.IsCheck ==> TimeAfterOK(t))
+//@      && nodup(t.Exits) && (forall j int :: 0 <= j && j < len(t.Exits) ==> !mem(*t.cacheTargetStates, t.Exits[j]))
+//@      && nodup(t.Enters) && subset(t.Enters, *t.cacheTargetStates) && TargetParallel(t) && !isnil(t.cacheSchema)
 //@      && (t.Mutation.Type == MutationRemove ==> (forall x string :: mem(*t.cacheTargetStates, x) ==> !mem(*t.Mutation.cacheCalled, x)))
 //@      && t.cacheTargetStates != nil && t.Mutation.cacheCalled != nil && t.cacheStatesBefore != nil
 //@      && nodup(*t.cacheTargetStates) && subset(*t.cacheTargetStates, t.Machine.stateNames)
